@@ -188,3 +188,38 @@ Proof.
   - destruct A as [->|(_ & x & Hx & Ex)]; [now left|right; eauto].
   - exact B.
 Qed.
+
+(* ---- the same boundary reading for the generated IPv6 pattern (its core, twelve alternatives, is not characterised here) ---- *)
+Definition LBe (enc : cset) : re := Alt (Look false false 0 Bol) (Look false false 1 (Chr enc)).
+Definition LAe (enc : cset) : re := Look true false 0 (Alt (Chr enc) Eol).
+Lemma delimited_match (s : list chr) (enc : cset) (core : re) i c j c' :
+  In (j, c') (ms s (Seq (LBe enc) (Seq core (LAe enc))) i c) ->
+  (i = 0 \/ (1 <= i /\ exists x, nth_error s (i - 1) = Some x /\ in_cset x enc = true)) /\
+  (eol s j = true \/ exists x, nth_error s j = Some x /\ in_cset x enc = true) /\
+  den s core i j.
+Proof.
+  intro H. apply ms_den in H.
+  inversion H as [| |a b i0 j1 k D1 D2| | | | | | | | | |]; subst; clear H.
+  inversion D2 as [| |a b i0 j2 k D3 D4| | | | | | | | | |]; subst; clear D2.
+  assert (j1 = i). { unfold LBe in D1. inversion D1; subst; match goal with D : den _ (Look _ _ _ _) _ _ |- _ => inversion D; subst end; reflexivity. } subst j1.
+  assert (j2 = j). { unfold LAe in D4. inversion D4; subst; reflexivity. } subst j2.
+  split; [|split; [|exact D3]].
+  - unfold LBe in D1. inversion D1; subst.
+    + left. match goal with D : den _ (Look false false 0 Bol) _ _ |- _ => inversion D; subst end.
+      match goal with D : den _ Bol _ _ |- _ => inversion D; subst end. lia.
+    + right. match goal with D : den _ (Look false false 1 _) _ _ |- _ => inversion D; subst end. split; [assumption|].
+      match goal with D : den _ (Chr enc) _ _ |- _ => inversion D; subst end. eexists. split; [eassumption|assumption].
+  - unfold LAe in D4. inversion D4; subst. match goal with D : den _ (Alt _ _) _ _ |- _ => inversion D; subst end.
+    + right. match goal with D : den _ (Chr enc) _ _ |- _ => inversion D; subst end. eexists. split; [eassumption|assumption].
+    + left. match goal with D : den _ Eol _ _ |- _ => inversion D; subst end. assumption.
+Qed.
+Lemma generated_ipv6_pattern_shape : exists core, IPV6_RX = Seq (LBe cs9) (Seq (Grp 1 core) (LAe cs9)).
+Proof. eexists. reflexivity. Qed.
+Theorem ipv6_match_is_delimited (s : list chr) i c j c' :
+  In (j, c') (ms s IPV6_RX i c) ->
+  (i = 0 \/ (1 <= i /\ exists x, nth_error s (i - 1) = Some x /\ in_cset x cs9 = true)) /\
+  (eol s j = true \/ exists x, nth_error s j = Some x /\ in_cset x cs9 = true).
+Proof.
+  destruct generated_ipv6_pattern_shape as (core & E). rewrite E. intro H.
+  destruct (delimited_match s cs9 _ i c j c' H) as (A & B & _). split; assumption.
+Qed.
